@@ -110,6 +110,13 @@ def check_decoder(b, st_):
     i = r[1]
     if i is None:
         st_.klass("dis_rejects")
+        # the same bytes behind 1..3 other bytes of a stream, decoded at that offset, must be rejected as well
+        from miasmx.core.bin_stream import bin_stream
+        for off in (1, 3):
+            rr = guarded("dis-stream", lambda: dis(bin_stream(JUNK[2][:off] + b, off)))
+            if rr[0] == "ok" and rr[1] is not None:
+                return [(("stream-offset", "accepts-what-dis(bytes)-rejects", opkey(b)), "dis(%s) is None but the same bytes decoded from a stream at offset %d give a %s-byte instruction" % (
+                    b.hex(), off, rr[1].l), {"dis": b.hex()})]
         return []
     st_.klass("dis_accepts")
     out = []
@@ -120,6 +127,11 @@ def check_decoder(b, st_):
         if rr[0] == "exc":
             # the mnemonic is part of the signature where the failing site is a per-mnemonic table (mnemo_to_att, dict_to_ad)
             site = rr[1] + ((i.m.name,) if not rr[1][2].startswith("__str__ |") else ())
+            # a listed row without its mandatory prefix (0f 7c: 'haddINVALID') must not cover the same row *with* the prefix (seed C10-r8-3)
+            from checks.c01_decode import split_prefixes
+            mand = sorted(set("%02x" % p for p in split_prefixes(b)[0] if p in (0x66, 0xF2, 0xF3)))
+            if mand and not rr[1][2].startswith("__str__ |"):
+                site = site + ("with-" + "+".join(mand),)
             out.append((site, "%s decodes (%s) but rendering as '%s' raised %s" % (b[:l].hex(), i.m.name, fmt, rr[2]), {"dis": b.hex()}))
             texts.append(None)
         elif rr[0] == "ok":
@@ -466,7 +478,7 @@ def main(run):
     run.assumptions = ["the assembler's documented error is ValueError (raised by p_error, mnemo_from_att, dict_mul, forge_opc, check_imm_size); any other exception type is a failure",
                        "termination: 20 s watchdog only nominates; a hang is reported when the call also executes more than 3*10^6 lines under sys.settrace"]
     cs = set(x86space.cases(run.tier, run.seed)) | set(x86space.modrm_grid()) | set(x86space.x87_cases()) | set(x86space.control_flow_cases()) | set(x86space.boundary_value_cases())
-    cs |= set(x86space.random_cases(run.pick(20000, 400000), run.seed))
+    cs |= set(x86space.random_cases(run.pick(20000, 400000), run.seed)) | set(x86space.long_prefix_cases())
     cs = sorted(cs)
     runner.pmap(run, w_dis, runner.chunks(cs, 64))
     run.extra["decoder_windows"] = len(cs)
